@@ -492,3 +492,47 @@ def explicit_muldiv(text):
     if pos[0] != len(toks):
         raise Unsupported('explicit_muldiv: trailing tokens')
     return res
+
+
+_CTOKEN = re.compile(r'''
+   (?P<ws>\s+)
+ | (?P<num>(?:\d+\.\d*|\.\d+|\d+)(?:[eE][+-]?\d+)?[fFlL]?)
+ | (?P<id>[A-Za-z_]\w*)
+ | (?P<op>&&|\|\||==|!=|<=|>=|<|>|\+|-|\*|/|!|%)
+ | (?P<lp>\()
+ | (?P<rp>\))
+ | (?P<comma>,)
+''', re.X)
+_CMAP = {'&&': '.and.', '||': '.or.', '!': '.not.', '!=': '/='}
+
+
+def clex(text):
+    """C expression text (the operator subset cgen emits) -> the token vocabulary of spec/FParse.tla:
+    && || ! != are mapped to their Fortran spellings, pow(x, y) stays a function reference (FExpr knows
+    `pow` as the C library function: real result). `%` and casts are outside the model."""
+    toks = []
+    pos = 0
+    while pos < len(text):
+        m = _CTOKEN.match(text, pos)
+        if not m:
+            raise Unsupported(f'cannot lex C text {text[pos:pos+10]!r}')
+        pos = m.end()
+        k, s = m.lastgroup, m.group(m.lastgroup)
+        if k == 'ws':
+            continue
+        if k == 'num':
+            body = s.rstrip('fFlL')
+            if re.fullmatch(r'\d+', body):
+                toks.append({'t': 'int', 's': s, 'n': int(body), 'd': 1})
+            else:
+                f = Fraction(body)
+                toks.append({'t': 'real', 's': s, 'n': f.numerator, 'd': f.denominator})
+        elif k == 'op':
+            if s == '%':
+                raise Unsupported('C remainder operator')
+            toks.append({'t': 'op', 's': _CMAP.get(s, s), 'n': 0, 'd': 1})
+        elif k == 'id':
+            toks.append({'t': 'id', 's': s, 'n': 0, 'd': 1})
+        else:
+            toks.append({'t': k, 's': s, 'n': 0, 'd': 1})
+    return toks
